@@ -410,35 +410,81 @@ fn check_v1(s: &str, out: &mut Out) -> Result<(), (String, String)> {
     }
 }
 
-/// a v1 payload built field by field (mostly plausible, sometimes hostile values)
+/// a v1 payload built field by field: two thirds plausible (every field valid for its place, all 11
+/// distribution type ids, padding and blocking actions), one third with hostile values
 fn v1_payload(r: &mut Xo) -> Vec<u8> {
-    let n = r.range(0, 4) as usize;
+    let hostile = r.chance(1, 3);
+    let n = if hostile { r.range(0, 4) } else { r.range(1, 4) } as usize;
     let mut b = vec![];
-    b.extend_from_slice(&(*r.pick(&[1u16, 1, 1, 1, 0, 2, 0xffff])).to_le_bytes());
-    let f = |r: &mut Xo| -> f64 { *r.pick(&[0.0, 0.0, 0.5, 1.0, 1.0, 2.0, -1.0, f64::NAN, 1.0e-3, 0.25]) };
+    let version: u16 = if hostile { *r.pick(&[1u16, 1, 1, 1, 0, 2, 0xffff]) } else { 1 };
+    b.extend_from_slice(&version.to_le_bytes());
+    let f = |r: &mut Xo| -> f64 {
+        if hostile {
+            *r.pick(&[0.0, 0.0, 0.5, 1.0, 1.0, 2.0, -1.0, f64::NAN, 1.0e-3, 0.25])
+        } else {
+            *r.pick(&[0.0, 0.0, 0.5, 1.0, 1.0e-3, 0.25])
+        }
+    };
     b.extend_from_slice(&r.below(1000).to_le_bytes());
     b.extend_from_slice(&f(r).to_le_bytes());
     b.extend_from_slice(&r.below(1000).to_le_bytes());
     b.extend_from_slice(&f(r).to_le_bytes());
     b.push(r.below(2) as u8);
-    let declared = if r.chance(1, 8) { r.below(70000) as u16 } else { n as u16 };
+    let declared = if hostile && r.chance(1, 4) { r.below(70000) as u16 } else { n as u16 };
     b.extend_from_slice(&declared.to_le_bytes());
     for _ in 0..n {
         for _ in 0..3 {
-            b.extend_from_slice(&(r.below(13) as u16).to_le_bytes());
-            for _ in 0..4 {
-                let v: f64 = *r.pick(&[0.0, 1.0, 10.0, 1000.0, 0.5, -1.0, f64::NAN, f64::INFINITY, 1.0e9, 5.0]);
-                b.extend_from_slice(&v.to_le_bytes());
+            let ty = r.below(13) as u16;
+            b.extend_from_slice(&ty.to_le_bytes());
+            if hostile {
+                for _ in 0..4 {
+                    let v: f64 = *r.pick(&[0.0, 1.0, 10.0, 1000.0, 0.5, -1.0, f64::NAN, f64::INFINITY, 1.0e9, 5.0]);
+                    b.extend_from_slice(&v.to_le_bytes());
+                }
+            } else {
+                // parameters valid for every family: Uniform needs p1 <= p2, Binomial a probability as p2
+                let (p1, p2): (f64, f64) = match ty {
+                    1 => {
+                        let x = *r.pick(&[0.0, 1.0, 10.0, 1000.0]);
+                        (x, x + *r.pick(&[0.0, 1.0, 500.0]))
+                    }
+                    4 => (*r.pick(&[0.0, 1.0, 10.0, 1000.0]), *r.pick(&[0.0, 0.25, 0.5, 1.0])),
+                    _ => (*r.pick(&[0.5, 1.0, 2.0, 10.0]), *r.pick(&[0.5, 1.0, 2.0, 10.0])),
+                };
+                let start = *r.pick(&[0.0, 0.0, 1.0, 100.0]);
+                let max = *r.pick(&[0.0, 0.0, 1000.0, 1.0e6]);
+                for v in [p1, p2, start, max] {
+                    b.extend_from_slice(&v.to_le_bytes());
+                }
             }
         }
         for _ in 0..4 {
-            b.push(r.below(3) as u8);
+            b.push(r.below(if hostile { 3 } else { 2 }) as u8);
         }
-        for _ in 0..7 {
-            let k = if r.chance(1, 3) { r.below(n as u64 + 2) } else { u64::MAX };
-            for i in 0..n + 2 {
-                let v: f64 = if i as u64 == k { *r.pick(&[1.0, 1.0, 0.5, 2.0, -1.0, f64::NAN]) } else if r.chance(1, 12) { 0.25 } else { 0.0 };
-                b.extend_from_slice(&v.to_le_bytes());
+        // one probability vector per v1 event (7) plus the one the format reserves
+        for _ in 0..8 {
+            if hostile {
+                let k = if r.chance(1, 3) { r.below(n as u64 + 2) } else { u64::MAX };
+                for i in 0..n + 2 {
+                    let v: f64 = if i as u64 == k { *r.pick(&[1.0, 1.0, 0.5, 2.0, -1.0, f64::NAN]) } else if r.chance(1, 12) { 0.25 } else { 0.0 };
+                    b.extend_from_slice(&v.to_le_bytes());
+                }
+            } else {
+                // targets: a state, or END (index n + 1); index n is the unsupported v1 cancel pseudo-state
+                let mut v = vec![0.0f64; n + 2];
+                if r.chance(1, 2) {
+                    let t = if r.chance(1, 5) { n + 1 } else { r.below(n as u64) as usize };
+                    v[t] = *r.pick(&[1.0, 0.5, 0.25]);
+                    if r.chance(1, 4) {
+                        let t2 = if r.chance(1, 3) { n + 1 } else { r.below(n as u64) as usize };
+                        if t2 != t {
+                            v[t2] = 0.25;
+                        }
+                    }
+                }
+                for x in v {
+                    b.extend_from_slice(&x.to_le_bytes());
+                }
             }
         }
     }
